@@ -115,7 +115,7 @@ CHECKS = {
         "graph. Histories: explicit-state BFS over every sequence of queries (ReachOf, ReachSliceOf, OrReach, XorReach, CanReach for all node pairs, both directions) to the depth bound on a "
         "real ReachabilityCache per graph x cache capacity; canonical state = complete state of both SIEVE caches (queue order, visited bits, hand, cached bitmaps by content and identity); "
         "every answer is compared with a plain BFS of the original graph (336k states quick).",
-   note="The defect found here (incomplete reach cached) was repaired in /repo (fix: commit). Cache state is read through a verif-tagged overlay accessor. 'Reaches' is reflexive, OrReach/XorReach leave the queried node out, as documented. The quick tier adds every labelled loop-free 5-node digraph with <= 5 edges (reach queries, two deep, capacities 1..3), the thorough tier every labelled 6-node digraph with <= 6 edges (capacities 2..3): the depth-first order of the reach computation follows the numeric order of ids.",
+   note="The defect found here (incomplete reach cached) was repaired in /repo (fix: commit). Cache state is read through a verif-tagged overlay accessor. 'Reaches' is reflexive, OrReach/XorReach leave the queried node out, as documented. The quick tier adds every labelled loop-free 5-node digraph with <= 5 edges (reach queries, two deep, capacities 1..3), and every labelled 6-node DAG with <= 7 edges whose ids are in a topological order (capacities 2..3, both directions), the thorough tier every labelled 6-node digraph with <= 6 edges (capacities 2..3): the depth-first order of the reach computation follows the numeric order of ids.",
    technique="bounded exhaustive graph enumeration x explicit-state BFS over query histories against a naive BFS oracle",
    design_ref="4/C15, 10.5"),
  "C11": dict(level="exploration", engine="E3 enum",
